@@ -47,6 +47,12 @@ def initBlock (ctx : Ctx R) (gravityNorm depth : R) (p : Req) : Except Err (List
   | 5 => .ok [0, 0, 0]
   | _ => .error .unknownProperty
 
+/-- the loop after the features (world.cc, `fix:` dc333d22): a forced surface temperature is re-imposed on every temperature entry -/
+def reimposeForced (ctx : Ctx R) (depth : R) (pes : List (Req × Nat)) (out : List R) : List R :=
+  if forcedSurface ctx depth then
+    pes.foldl (fun out (pe : Req × Nat) => if pe.1.code == 1 then writeBlock pe.2 [ctx.surfaceT] out else out) out
+  else out
+
 /-- `World::properties(point_3d, depth, properties)` -/
 def World.props3 {G : Type} [RandGen G R] (w : World R) (pt : P3 R) (depth : R) (ps : List Req) : QM G (List R) := do
   let nat := w.ctx.coord.toNatural pt
@@ -55,10 +61,13 @@ def World.props3 {G : Type} [RandGen G R] (w : World R) (pt : P3 R) (depth : R) 
   let blocks ← liftE (ps.mapM (initBlock w.ctx g depth))
   let out := blocks.flatten
   -- the early return inside the background loop: forced surface temperature *and* a one-entry request
-  match ps with
-  | [p] => if p.code == 1 && forcedSurface w.ctx depth then return out
-           else w.features.foldlM (fun out f => f.apply w.ctx q (ps.zip (entries ps)) out) out
-  | _ => w.features.foldlM (fun out f => f.apply w.ctx q (ps.zip (entries ps)) out) out
+  let early := match ps with
+    | [p] => p.code == 1 && forcedSurface w.ctx depth
+    | _ => false
+  if early then return out
+  let pes := ps.zip (entries ps)
+  let out ← w.features.foldlM (fun out f => f.apply w.ctx q pes out) out
+  return reimposeForced w.ctx depth pes out
 
 /-- the 2-D → 3-D point mapping (world.cc:326-348) -/
 def World.lift2 (w : World R) (c0 c1 : P2 R) (pt : P2 R) : P3 R :=
